@@ -176,7 +176,7 @@ def check_read(ctx, c, trace, rng, label=""):
 
 
 def run(ctx):
-    lw = setup(ctx)
+    lw = setup(ctx, warm=False)
     install_param_monitors(lw)
     rng = ctx.rng
     P, PD = lw.Parameter, lw.ParameterDict
